@@ -85,7 +85,8 @@ def stateStr (st : St) : String :=
   let ong := String.intercalate "," ((o.ongoing.map (fun p => s!"{st.tuners.getD p.1 "?"}={pad st.width p.2}")).toArray.qsort (· < ·)).toList
   let rq := String.intercalate "," (o.retryQ.map (pad st.width))
   let eo := String.intercalate "," (o.endOrder.map (pad st.width))
-  s!"trials[{sts}] ongoing[{ong}] retry[{rq}] end[{eo}]"
+  let tn := String.intercalate "," ((o.tunerIds.map (fun i => st.tuners.getD i "?")).toArray.qsort (· < ·)).toList
+  s!"trials[{sts}] ongoing[{ong}] retry[{rq}] end[{eo}] tuners[{tn}]"
 
 /-- a file write reaches the disk only while the crash budget lasts -/
 def spend (st : St) : St × Bool :=
